@@ -348,18 +348,21 @@ func VerifC02_Dorgbr() {
 //	ApplyP, nq >  k: P = G_0 ... G_{k-1}  (LQ layout, A is k x nq)
 //	ApplyP, nq <= k: P = G_0 ... G_{nq-2} (shifted rows, A is nq x nq)
 func VerifC02_Dormbr() {
-	maxN := verifParam("ormbn", 2)
+	// The order of Q resp. P (nq) goes up to ormbn = 3: that is the smallest
+	// order at which the shifted layouts hold two reflectors, so that the product
+	// order and trans matter; the other dimension of C (nw) stays <= ormbw.
+	maxN := verifParam("ormbn", 3)
 	applyQ := verifChoose("vect", 0, 1) == 0
-	m := verifChoose("m", 0, maxN)
-	n := verifChoose("n", 0, maxN)
 	side := verifC02side("side")
+	nq := verifChoose("nq", 0, maxN)
+	nw := verifChoose("nw", 0, verifParam("ormbw", 2))
+	m, n := nq, nw
+	if side == blas.Right {
+		m, n = nw, nq
+	}
 	trans := blas.NoTrans
 	if verifChoose("trans", 0, 1) == 1 {
 		trans = blas.Trans
-	}
-	nq, nw := m, n
-	if side == blas.Right {
-		nq, nw = n, m
 	}
 	k := verifChoose("k", 0, maxN+1)
 	minnqk := verifC02min(nq, k)
@@ -412,7 +415,7 @@ func VerifC02_Dormbr() {
 //	Upper: Q = H_{n-2} ... H_0, v_i = (A[0:i, i+1], 1, 0...)   (unit at i)
 //	Lower: Q = H_0 ... H_{n-2}, v_i = (0_{i+1}, 1, A[i+2:n, i])
 func VerifC02_Dorgtr() {
-	n := verifChoose("n", 0, verifParam("orgtn", 3))
+	n := verifChoose("n", 0, verifParam("orgtn", 4))
 	uplo := verifC02uplo("uplo")
 	lda := verifC02ld("ldaPad", n)
 	a := verifC02mat("a", n, n, lda)
